@@ -5,25 +5,40 @@ import vlib
 from vlib import cz, czl, tolq
 from props import _estimators as E
 
-LEVEL_TEXT = ("Coq theorems in the abstract ordered *-field (every length, order, lag, every non-zero scalar c): the models of the "
-              "autocorrelation, of LEVINSON and of arburg are homogeneous (|c|^2 on lags / error power / variance, coefficients, "
-              "reflection coefficients, selected order and raise decisions unchanged; any homogeneous order-selection rule, FPE and "
-              "the five logarithmic criteria are homogeneous).  The three models are tied to the code by exact in-Coq correspondence "
-              "at scaled inputs; every other estimator (function and class form) is covered by a property-directed search that "
-              "compares estimate(c*x) with |c|^p * estimate(x).")
+LEVEL_TEXT = ("Coq theorems in the abstract ordered *-field (every length, order, lag, NFFT; every non-zero scalar c; |c|^2 := c conj c): the models of "
+              "CORRELATION, LEVINSON, arburg (any homogeneous order rule; FPE and the five logarithmic criteria are), speriodogram (1-D, 2-D, the "
+              "Periodogram object under any sequence of operations), CORRELOGRAMPSD, aryule / lpc, arcovar / modcovar (lstsq specification: same "
+              "solution set; executable solver: same output; relative imaginary-part assertion: same branch; pcovar/pmodcovar rho), minvar, pmtm "
+              "(eigenspectra times c, identical weights and pass count for every pass bound, MultiTapering psd) and eigen / pmusic / pev over the SVD "
+              "specification ((S,Vh) spec for FB(x) => (|c| S, Vh) spec for FB(c x); decisions unchanged; MUSIC unchanged, EV times |c|) are "
+              "homogeneous; class level: for every pipeline table stored(k*S) = k*stored(S), and over the table GENERATED from the snapshot on this "
+              "run every class is routed to a proved-homogeneous estimator and every AR/MA/ARMA class hands the estimated variance to arma2psd "
+              "(linear in rho).  Models are tied to the code by exact in-Coq correspondence at scaled inputs (here: CORRELATION, LEVINSON, arburg, "
+              "aryule, arcovar, modcovar, speriodogram; the other models by the correspondence runs of C01 C14 C16 C17 C19); every estimator "
+              "(function and class form) is also covered by a property-directed search comparing estimate(c*x) with |c|^p * estimate(x).")
 TRUSTED = ["Coq 8.16.1 kernel + vm_compute",
-           "hand-written models coq/Model/{Corr,Levinson,Burg}.v (tie = correspondence run at scaled inputs)",
+           "hand-written models coq/Model/{Corr,Levinson,Burg,Periodogram,Yule,Ls,Minvar,Mtm,Eigen,Arma2psd}.v (tie = correspondence runs, here at "
+           "scaled inputs for Corr/Levinson/Burg/Yule/Ls/Periodogram, in C16/C17/C19 for Minvar/Eigen/Mtm)",
+           "fail-closed AST translator tools/props/_pipelines.py and the interpreter coq/Model/PipelineLib.v (validated against real objects by C08)",
+           "numpy.linalg.svd / scipy.linalg.lstsq / numpy.fft / dpss enter as specifications (Section variables with hypotheses), argmin of "
+           "aic_eigen / mdl_eigen as an oracle argument",
            "log_criteria_homogeneous is stated over the standard-library reals (axioms: sig_forall_dec, sig_not_dec, "
            "functional_extensionality_dep, classic); all other theorems are axiom-free",
            "Python harness"]
-UNPROVED = ["homogeneity of periodogram / correlogram / Yule-Walker composition / covariance, modified covariance (lstsq spec) / "
-            "ARMA, MA / minimum variance / MUSIC, EV (SVD spec) / multitaper weights / class level: search only at this commit"]
-ASSUMPTIONS = ["exact arithmetic in the theorems", "non-degenerate stages (non-zero denominators) as hypotheses of the theorems"]
+UNPROVED = ["arma_estimate / ma (no merged model), DaniellPeriodogram, arcovar_marple / modcovar_marple: search only",
+            "invariance of the argmin of aic_eigen / mdl_eigen (logarithms; an oracle argument of the Eigen model): search only",
+            "that numpy's svd / lstsq return related factorisations for x and c*x (theorems are over their specifications); binary64 rounding"]
+ASSUMPTIONS = ["exact arithmetic in the theorems",
+               "non-degenerate stages as hypotheses of the theorems: non-zero Levinson / Burg denominators, no zero bin in real(fft(psi)) of minvar "
+               "(proved on a proper grid), regular adaptive multitaper run (proved from sig2 > 0, 0 < lambda <= 1, S0 <> 0), eps > 0 and S_0 > 0 "
+               "and no zero EV denominator bin (bin-by-bin version without it)"]
 RULE = ("data: noise, tones in noise, integer (incl. 16-bit scale), AR-generated; real and complex; N 16..64; scalars |c| log-uniform in "
         "[1e-3,1e3] with random sign/phase; every functional estimator and every PSD class with orders in their domain; "
         "non-trivial = non-constant data and order >= 2 where an order exists; distinct = distinct (estimator, config, data, c)")
+GEN_NAMES = ['class_scale', 'class_estimator_routing', 'model_classes_rho_routed']
 
-PRE = """Require Import Spectrum.Theory.Ops Spectrum.Theory.Vec Spectrum.Model.Levinson Spectrum.Model.Burg Spectrum.Model.Corr Spectrum.Instances.QcC.
+PRE = """Require Import Spectrum.Theory.Ops Spectrum.Theory.Vec Spectrum.Theory.Dft Spectrum.Model.Levinson Spectrum.Model.Burg Spectrum.Model.Corr
+               Spectrum.Model.Yule Spectrum.Model.Ls Spectrum.Model.Periodogram Spectrum.Instances.QcC Spectrum.Instances.QcCTw.
 From Coq Require Import QArith Qcanon.
 Local Open Scope Z_scope.
 Definition res_close (tol : Qc) (r : option (list QcC * QcC * list QcC)) (raised : bool) (ia : list QcC) (ip : QcC) (ik : list QcC) : bool :=
@@ -38,6 +53,17 @@ Definition lev_scaled tol (s : QcC) (r : list QcC) (order : nat) raised ia ip ik
   res_close tol (@levinson _ qcc_ops (@vscale _ qcc_ops s r) order false) raised ia ip ik.
 Definition acorr_scaled tol (c : QcC) (x : list QcC) (ml : nat) (nm : cnorm) (ir : list QcC) :=
   match @acorr _ qcc_ops (@vscale _ qcc_ops c x) ml nm with None => false | Some r => qcc_close_rel tol (dy 1 0) r ir end.
+Definition yule_scaled tol (c : QcC) (x : list QcC) (order : nat) (nm : cnorm) raised ia ip ik :=
+  res_close tol (match @aryule _ qcc_ops (@vscale _ qcc_ops c x) order nm true with inl _ => None | inr st => Some st end) raised ia ip ik.
+Definition tol4 : QcC := (Q2Qc (1 # 10000), Q2Qc 0).
+Definition covar_scaled tol (s : Qc) (modified : bool) (c : QcC) (x : list QcC) (p : nat) (raised : bool) (ia : list QcC) (ie : QcC) :=
+  match (if modified then @modcovar _ qcc_ops tol4 (@vscale _ qcc_ops c x) p else @arcovar _ qcc_ops tol4 (@vscale _ qcc_ops c x) p) with
+  | None => raised
+  | Some (a, e) => negb raised && qcc_close_rel tol (dy 1 0) a ia && qcc_close_rel tol s [e] [ie]
+  end.
+(* speriodogram on the exact 4-point grid, scale_by_freq off (2*pi is then not read) *)
+Definition per_scaled tol (c : QcC) (x w : list QcC) (isreal : bool) (dt : pyval) (ipsd : list QcC) :=
+  qcc_close_rel tol (dy 1 0) (@speriodogram _ qcc_ops tw4 (cz (0,0) (0,0)) (@vscale _ qcc_ops c x) w (Some 4%nat) isreal dt PyFalse (cz (1,0) (0,0))) ipsd.
 """
 
 
@@ -197,12 +223,44 @@ def one_class(cls, x, cfg, NFFT, sampling, c, rtol=1e-6):
     return compare(out0, out1, c, rtol)
 
 
+
+# ------------------------------------------------------------------ aic_eigen / mdl_eigen: the formulas of Proofs/CriteriaEigenR_C03.v
+def eigen_criterion_model(s, N, which):
+    """the Coq definitions aic_eigen_at / mdl_eigen_at, literally (lnratio of the tail s[k+1:], d = len(tail)+1 = n-k)"""
+    s = np.asarray(s, dtype=float); n = len(s); out = []
+    for k in range(0, n - 1):
+        t = s[k + 1:]; d = float(len(t) + 1)
+        lnratio = np.sum(np.log(t)) / d - np.log(np.sum(t) / d)
+        if which == 'aic':
+            out.append(-2.0 * (n - k) * N * lnratio + 2.0 * k * (2.0 * n - k))
+        else:
+            out.append(-(n - k) * N * lnratio + 0.5 * k * (2.0 * n - k) * np.log(N))
+    return np.array(out)
+
+
+def one_criterion(which, s, N, m, rtol=1e-8):
+    """failures of: code == formula model; code(m*s) == code(s) + const (2 N ln m / N ln m) at every index (hence same argmin)"""
+    from spectrum.criteria import aic_eigen, mdl_eigen
+    f = aic_eigen if which == 'aic' else mdl_eigen
+    a0 = np.array(f(s, N), dtype=float); a1 = np.array(f(m * s, N), dtype=float); mod = eigen_criterion_model(s, N, which)
+    shift = (2.0 if which == 'aic' else 1.0) * N * np.log(m)
+    scale = max(np.max(np.abs(mod)), abs(shift), 1.0)
+    bad = []
+    if not np.all(np.isfinite(a0)) or np.max(np.abs(a0 - mod)) > rtol * scale:
+        bad.append(('model', '%s_eigen(s, N) differs from the formula the theorem eigen_criteria_shift is about' % which))
+    if not np.all(np.isfinite(a1)) or np.max(np.abs(a1 - (mod + shift))) > rtol * scale:
+        bad.append(('shift', '%s_eigen(m*s, N) is not %s_eigen(s, N) + %s N ln m at every index' % (which, which, '2' if which == 'aic' else '1')))
+    return bad
+
+
 def replay(rep):
     r = rep['replay']; x = vlib.unhexv(r['x']); c = complex(*[float.fromhex(t) for t in r['c']])
     if r['datatype'] == 'real':
         x = np.real(x); c = c.real
-    cfg = r['cfg']
+    cfg = r.get('cfg')
     try:
+        if r['form'] == 'criterion':
+            return not one_criterion(r['estimator'], np.real(x), r['N'], float.fromhex(r['m']))
         if r['form'] == 'function':
             return not one_function(r['estimator'], x, cfg, c)
         return not one_class(r['estimator'], x, cfg, r.get('NFFT'), r.get('sampling', 1.0), c)
@@ -218,6 +276,22 @@ def run(ctx):
     from spectrum import arburg, LEVINSON, CORRELATION
     rng = ctx.rng
     ctx.check_theorems('Properties/C03.v')
+
+    # ---------------- class level: the theorems over the pipeline table GENERATED from the snapshot on this run
+    import os
+    from props import _pipelines as P
+    src = os.path.join(vlib.SNAP, 'src', 'spectrum')
+    try:
+        tab = P.extract(src)
+        table_v = P.gallina(tab)
+    except P.Fail as e:
+        table_v = None
+        for n in GEN_NAMES:
+            ctx.obligations.append((n, False, []))
+        ctx.broken.append({'theorem': 'translator:pipelines (source outside the recognised shapes)', 'where': src, 'log': str(e)})
+    if table_v is not None:
+        thm = open(os.path.join(os.path.dirname(os.path.abspath(__file__)), '_c03_theorems.v.in')).read()
+        ctx.check_generated('C03_pipelines', table_v + thm, GEN_NAMES)
 
     # ---------------- correspondence of the three theorem-bearing models at scaled inputs (exact, in Coq)
     cases = []; meta = []
@@ -265,7 +339,64 @@ def run(ctx):
         meta.append({'function': which, 'x': vlib.hexv(x), 'c': str(c), 'order': p})
         ctx.count('corr/%s/%s' % (which, 'complex' if cplx else 'real'))
         ctx.case(('corr', which, x.tobytes(), str(c), p), nontrivial=(p >= 2), sample={'function': which + ' at c*x', 'c': str(c), 'x': [str(t) for t in x], 'order': p})
-    for i in ctx.coq_cases('c03_scaled', PRE, cases, shard=40, descr='arburg / LEVINSON / CORRELATION at scaled inputs vs the models at QcC'):
+    # the models the phase-2 theorems are about, at scaled inputs: aryule, arcovar / modcovar, speriodogram (exact 4-point grid)
+    from spectrum import aryule, arcovar, modcovar, speriodogram
+    from spectrum.window import Window
+    guard = 0; want = len(cases) + ctx.q(45, 300)
+    while len(cases) < want and guard < 5000:
+        guard += 1
+        cplx = bool(rng.integers(0, 2))
+        c = (complex(rng.integers(-6, 7), rng.integers(-6, 7)) / 4.0) if cplx else float(rng.integers(-12, 13)) / 4.0
+        if c == 0:
+            c = -2.5
+        if rng.integers(0, 4) == 0:
+            c = c * 2.0 ** int(rng.choice([-10, 12, 20]))          # large / small amplitudes: still exact dyadic
+        which = str(rng.choice(['aryule', 'arcovar', 'modcovar', 'speriodogram']))
+        if which == 'aryule':
+            p = int(rng.integers(1, 4)); N = p + 2 + int(rng.integers(0, 5)); x = lowbit(rng, N, cplx); xs = c * x
+            nm = str(rng.choice(['biased', 'unbiased']))
+            raised = False
+            try:
+                a, P_, k = aryule(xs, p, norm=nm)
+            except (ValueError, AssertionError):
+                raised = True; a = []; P_ = 0; k = []
+            if not raised and not (np.all(np.isfinite(a)) and np.isfinite(P_) and abs(P_) > 0):
+                ctx.count('regenerated_degenerate'); continue
+            r0 = np.sum(np.abs(xs) ** 2) / N
+            kap = 1.0 if raised else max(1.0, r0 / max(abs(P_), 1e-300))
+            if kap > 1e4:
+                ctx.count('regenerated_illconditioned'); continue
+            cases.append('yule_scaled %s %s %s %d%%nat %s %s %s %s %s' % (tolq(1e-9 * kap), cz(c), czl(x), p, 'Biased' if nm == 'biased' else 'Unbiased',
+                         'true' if raised else 'false', czl(a), cz(P_), czl(k)))
+        elif which in ('arcovar', 'modcovar'):
+            p = int(rng.integers(1, 4)); N = int(rng.integers(max(4, 2 * p + 1), 12)); x = lowbit(rng, N, cplx); xs = c * x
+            mod = which == 'modcovar'
+            T = np.array([[xs[n - j] for j in range(p + 1)] for n in range(p, N)])
+            if mod:
+                T = np.vstack([T, np.array([[np.conj(xs[n - p + j]) for j in range(p + 1)] for n in range(p, N)])])
+            sv = np.linalg.svd(T[:, 1:], compute_uv=False)
+            if sv[-1] <= 0 or (sv[0] / sv[-1]) ** 2 > 1e6:
+                ctx.count('regenerated_illconditioned'); continue
+            kap2 = float((sv[0] / sv[-1]) ** 2); en = float(np.vdot(T[:, 0], T[:, 0]).real)
+            raised = False; a = []; e = 0.0
+            try:
+                a, e = (modcovar if mod else arcovar)(xs, p)
+            except (AssertionError, ValueError, np.linalg.LinAlgError):
+                raised = True
+            cases.append('covar_scaled %s %s %s %s %s %d%%nat %s %s %s' % (tolq(1e-9 * kap2), tolq(en), 'true' if mod else 'false', cz(c), czl(x), p,
+                         'true' if raised else 'false', czl(a), cz(e)))
+        else:
+            N = int(rng.integers(2, 5)); p = N; x = lowbit(rng, N, cplx); xs = c * x
+            wname = str(rng.choice(['hamming', 'hann', 'rectangular', 'bartlett'])) if N > 2 else 'rectangular'
+            dt = rng.choice(['none', 'true', 'mean'])
+            psd = speriodogram(xs, NFFT=4, detrend={'none': None, 'true': True, 'mean': 'mean'}[str(dt)], scale_by_freq=False, window=wname)
+            w = np.asarray(Window(N, wname).data, dtype=float)
+            cases.append('per_scaled %s %s %s %s %s %s %s' % (tolq(1e-10), cz(c), czl(x), czl(w), 'false' if cplx else 'true',
+                         {'none': 'PyNone', 'true': 'PyTrue', 'mean': 'PyStr'}[str(dt)], czl(psd)))
+        meta.append({'function': which, 'x': vlib.hexv(np.asarray(x, dtype=complex)), 'c': str(c), 'order': p})
+        ctx.count('corr/%s/%s' % (which, 'complex' if cplx else 'real'))
+        ctx.case(('corr2', which, x.tobytes(), str(c), p), nontrivial=(p >= 2), sample={'function': which + ' at c*x', 'c': str(c), 'x': [str(t) for t in x], 'order': p})
+    for i in ctx.coq_cases('c03_scaled', PRE, cases, shard=40, descr='arburg / LEVINSON / CORRELATION / aryule / arcovar / modcovar / speriodogram at scaled inputs vs the models at QcC'):
         ctx.corr_disagreement(meta[i]['function'], i, meta[i])
 
     # ---------------- property-directed search: every functional estimator
@@ -336,6 +467,25 @@ def run(ctx):
             continue
         for oname, what in compare(out0, out1, c, 1e-5):
             ctx.violation('scale/%s/%s' % (name, oname), '%s (order %d), output %s: %s' % (name, big, oname, what), rep)
+
+    # ---------------- aic_eigen / mdl_eigen: the code is the formula of eigen_criteria_shift, and shifts by a constant under s -> m*s
+    for it in range(ctx.q(60, 600)):
+        which = ['aic', 'mdl'][it % 2]
+        n = int(rng.integers(2, 12)) if it % 3 else int(rng.integers(60, 140))
+        sv = np.sort(np.exp(rng.normal(0.0, 1.5, size=n)))[::-1].copy()
+        N = int(2 * rng.integers(8, 101)); m = float(10.0 ** rng.uniform(-3, 3))
+        if n >= 12 and it % 2 == 0:
+            m = [1e3, 1e-3][(it // 2) % 2]            # ends of the amplitude range with many singular values: products over/underflow
+        ctx.count('search/criterion/%s_eigen/%s' % (which, 'short' if n < 12 else 'long'))
+        ctx.case(('crit', which, sv.tobytes(), N, m), nontrivial=(n >= 3), sample={'estimator': which + '_eigen', 'n': n, 'N': N, 'm': m})
+        rep = {'form': 'criterion', 'estimator': which, 'x': vlib.hexv(np.asarray(sv, dtype=complex)), 'datatype': 'real', 'N': N,
+               'm': m.hex(), 'c': [m.hex(), (0.0).hex()]}
+        try:
+            bad = one_criterion(which, sv, N, m)
+        except Exception as e:
+            bad = [('raises', '%s_eigen raises %s' % (which, type(e).__name__))]
+        for kind, what in bad:
+            ctx.violation('scale/%s_eigen/%s' % (which, kind), what, rep)
 
     # ---------------- every PSD class
     nextreme = 2 * len(E.CLASSES)
